@@ -115,6 +115,12 @@ CHECKS = {
         note="Trusted: z3, CPython, rsx, pybind. Dotted completions, import lines, def/class header lines and positions inside strings/comments are checked for 'no internal error' and prefix only. Bound: corpus K20, identifiers of one or two letters.",
         design="§5 C20",
     ),
+    "C09": dict(
+        level="other",
+        text="Solver-decided, path-exhaustive within stated bounds (Pattern B with monitors): for 14 public entry points (rename, extract method/variable, inline, move, change signature, introduce parameter, encapsulate field, introduce factory, method object, local to field, use function, find occurrences, find definition) at every (quick: every fifth) character position of the corpus modules, with symbolic identifier spellings, z3 enumerates all paths; on each, an escaping exception must be a RopeError and the project directory is compared byte for byte before and after computing the changes (also on refusal paths). On a layout with an out-of-project module, an ignored resource and a sibling folder, the change sets of rename / inline / move / change-signature must stay inside the root and off the ignored resource; replays perform the changes on the real file system and compare the touched paths with get_changed_resources().",
+        note="Trusted: z3, CPython, rsx. 'Performing touches exactly what was announced' is executed on concrete witness projects (in the replay path and the containment instances), not symbolically. Two genuine internal-exception defects found here were fixed in /repo.",
+        design="§5 C09",
+    ),
 }
 
 NOT_YET = "check not built yet (see DESIGN.md §5 for the planned decision procedure)"
